@@ -538,7 +538,12 @@ pub async fn awrite(kind: Kind, model: &Model, sink: SimAsyncWrite, workers: usi
         (Kind::Bam, Model::Align { parsed, .. }) => {
             let mut w = bam::r#async::io::Writer::from(bgzf_writer(sink, workers));
             w.write_header(&parsed.header).await?;
-            for r in &parsed.records {
+            for (i, r) in parsed.records.iter().enumerate() {
+                if let Some(bad) = super::align::rejected_record(parsed, i) {
+                    if w.write_alignment_record(&parsed.header, &bad).await.is_ok() {
+                        return Err(io::Error::other("nsim: the invalid record was accepted"));
+                    }
+                }
                 w.write_alignment_record(&parsed.header, r).await?;
             }
             w.shutdown().await
@@ -546,7 +551,12 @@ pub async fn awrite(kind: Kind, model: &Model, sink: SimAsyncWrite, workers: usi
         (Kind::BamRaw, Model::Align { parsed, .. }) => {
             let mut w = bam::r#async::io::Writer::from(sink);
             w.write_header(&parsed.header).await?;
-            for r in &parsed.records {
+            for (i, r) in parsed.records.iter().enumerate() {
+                if let Some(bad) = super::align::rejected_record(parsed, i) {
+                    if w.write_alignment_record(&parsed.header, &bad).await.is_ok() {
+                        return Err(io::Error::other("nsim: the invalid record was accepted"));
+                    }
+                }
                 w.write_alignment_record(&parsed.header, r).await?;
             }
             w.shutdown().await
